@@ -98,6 +98,13 @@ CHECKS = {
                      "itself) is compared with a reference resolver; nothing outside the roots may ever be served",
                 note="trusted: reference resolver in vf/checks/c16.py; one ambiguous class of relative includes is not judged (assumptions)",
                 technique="bounded exhaustive enumeration of mapping configurations x request paths against a reference resolver"),
+    "C17": dict(level="fault_enumeration", ref="3/C17",
+                text="archives from an independent packer (all file sets of <=2/3 entries over names x sizes x property sets, with/without trailer) are "
+                     "listed and every entry is read back through the VFS under the prefix; then every truncation length, every header/property/table byte "
+                     "x 4 values, every size field x 6 values and absent / directory paths, each in a forked ASan child with a 64 MiB allocation limit and "
+                     "a before/after hash of the scratch directory",
+                note="trusted: independent packer vf/ref/pbo.py; undetectable corruptions (no per-entry checksum in the format) are judged for safety only",
+                technique="exhaustive enumeration of truncation points and single-byte / length-field corruptions with sanitizers, allocation limit and directory hashing as oracle"),
 }
 
 PENDING_REASON = "check not built yet in this round (planned, see DESIGN.md section 3)"
